@@ -438,7 +438,7 @@ def fresh_tables():
     facts = gen_tables.run(["cli"])
     # the tie must be re-proved against the table just written, whatever the file times say
     for rel in ["theories/Gen/CliGen.vo", "theories/Cli/Escape.vo", "theories/Cli/CliTie.vo",
-                "theories/Cli/EscapeRun.vo", "theories/Cli/EscapeProofs.vo"]:
+                "theories/Cli/EscapeRun.vo"]:
         try:
             os.remove(os.path.join(vlib.VERIF, rel))
         except FileNotFoundError:
